@@ -20,7 +20,8 @@ PROPS_MODULE = "BiotiteModel.Props.C01"
 DRIVER_MODULE = "BiotiteModel.Driver.C01"
 EXT_MODULES = ["biotite.structure.bonds"]
 GEN_FILES = ["BiotiteModel/Gen/C01.lean"]
-RULE = ("seeded operation histories (1-25 ops) over up to 4 registers holding atom arrays / stacks / atoms of 0-9 "
+RULE = ("[+ 60 oracle-only API probes per quick run: len/shape/iteration/attribute access/`+`/equal_annotations(equal_nan)/"
+        "Atom ==,copy/str/coord()/fresh constructors against the list-of-atoms reference] seeded operation histories (1-25 ops) over up to 4 registers holding atom arrays / stacks / atoms of 0-9 "
         "atoms, depth 0-4, with/without box, bonds and extra annotations (int/float/str/bool); indices drawn from the "
         "string annotations of varying width (1-8 chars, so array()/setitem/concatenate/stack meet narrower dtypes), whole acceptance range of one numpy axis (-n-2..n+1, slices with negative/zero/oversized step and bounds, "
         "masks of right and wrong length, contiguous and strided, sorted/unsorted/duplicate/empty index arrays, int64 "
@@ -1073,6 +1074,8 @@ def oracle(case):
 
 
 def _oracle(case):
+    if "api" in case:
+        return _oracle_api(case)
     ops = case.get("ops") or []
     impl, ref = Impl(), Ref()
     for k, op in enumerate(ops):
@@ -1139,6 +1142,167 @@ def _oracle(case):
                          f"{impl.all_regs()[:300]} != {ref.all_regs()[:300]}")]
     return []
 
+
+
+# ------------------------------------------------------------------ less-used entry points (oracle-only stream)
+def _api_case(rng):
+    """Two containers (the second one often a sibling of the first) for the API probe of `_oracle_api`."""
+    g = Gen(rng)
+    if "f_y" not in g.extra:
+        g.extra.append("f_y")
+    g.new("r0")
+    c = g.ref.r["r0"]
+    if rng.random() < 0.6:
+        g.new("r1", stack=c.stack, like=c, vary_box=True)
+    else:
+        g.new("r1", stack=c.stack)
+    return {"kind": "api", "api": {"new": list(g.ops), "seed": rng.randrange(10 ** 6)}}
+
+
+def _oracle_api(case):
+    """Public entry points no protocol op goes through: len/shape/iteration, attribute-style access, `+`,
+    equal_annotations(equal_nan=...), equal_annotation_categories, Atom ==/!=/copy/shape/kwargs form, str(),
+    coord(), dir(), fresh constructors, get_annotation of a missing category."""
+    import random
+    import numpy as np
+    import biotite.structure as struc
+    from biotite.structure import Atom, AtomArray, AtomArrayStack
+    rng = random.Random(case["api"]["seed"])
+    impl, ref = Impl(), Ref()
+    for op in case["api"]["new"]:
+        if not impl.do(op).startswith("ok") :
+            return []
+        ref.do(op)
+    out = []
+
+    def bad(key, msg):
+        out.append((f"C01/api/{key}", msg[:300]))
+
+    for reg in ("r0", "r1"):
+        a, c = impl.r[reg], ref.r[reg]
+        n, stack = len(c.atoms), c.stack
+        # sizes
+        exp_shape = (c.depth, n) if stack else (n,)
+        if a.shape != exp_shape or len(a) != exp_shape[0] or a.array_length() != n or (stack and a.stack_depth() != c.depth):
+            bad("shape", f"{reg}: shape {a.shape}, len {len(a)}, array_length {a.array_length()} for reference {exp_shape}")
+        # iteration == indexing == reference
+        items = list(a)
+        if len(items) != exp_shape[0]:
+            bad("iter", f"{reg}: iteration yields {len(items)} items, expected {exp_shape[0]}")
+        for i, x in enumerate(items):
+            r2 = Ref()
+            r2.r = dict(ref.r)
+            want = r2.do(f"get r3 {reg} i{i}")
+            if canon_real(x) != want:
+                bad("iter", f"{reg}: item {i} of iteration {canon_real(x)[:120]} != reference {want[:120]}")
+                break
+        # attribute-style access
+        for k in sorted(c.names):
+            if getattr(a, k) is not a.get_annotation(k):
+                bad("getattr", f"{reg}: attribute {k} is not the annotation array")
+        if a.coord is not a._coord or a.box is not a._box or a.bonds is not a._bonds:
+            bad("getattr", f"{reg}: coord/box/bonds attributes")
+        if not set(c.names) | {"coord", "box", "bonds"} <= set(dir(a)):
+            bad("dir", f"{reg}: dir() lacks annotation names")
+        if sorted(a.get_annotation_categories()) != sorted(c.names):
+            bad("categories", f"{reg}: {a.get_annotation_categories()} != {sorted(c.names)}")
+        try:
+            a.get_annotation("no_such_category")
+            bad("get_annotation", f"{reg}: a missing category was returned")
+        except ValueError:
+            pass
+        # attribute-style assignment == set_annotation (on copies)
+        if n:
+            b1, b2 = a.copy(), a.copy()
+            k = rng.choice(sorted(c.names))
+            col = _np_col(k, [rng.choice([a2.ann[k] for a2 in c.atoms]) for _ in range(n)])
+            setattr(b1, k, col.copy())
+            b2.set_annotation(k, col.copy())
+            if canon_real(b1) != canon_real(b2):
+                bad("setattr", f"{reg}: `array.{k} = col` differs from set_annotation: {canon_real(b1)[:100]} != {canon_real(b2)[:100]}")
+            before = canon_real(b1)
+            try:
+                setattr(b1, k, col[:-1])
+                bad("setattr", f"{reg}: a too short annotation array was accepted")
+            except IndexError:
+                if canon_real(b1) != before:
+                    bad("setattr", f"{reg}: a refused attribute assignment changed the array")
+        # str(): one line per atom (per model), never an exception
+        try:
+            text = str(a)
+            if not stack and n and len(text.splitlines()) != n:
+                bad("str", f"{reg}: str() has {len(text.splitlines())} lines for {n} atoms")
+            repr(a)
+        except Exception as e:  # noqa: BLE001
+            bad("str", f"{reg}: str()/repr() raised {type(e).__name__}")
+        # coord()
+        got = struc.coord(a)
+        if got is not a.coord:
+            bad("coord", f"{reg}: coord(container) is not its coord")
+    a0, a1, c0, c1 = impl.r["r0"], impl.r["r1"], ref.r["r0"], ref.r["r1"]
+    # `+` == concatenate == reference
+    r2 = Ref()
+    r2.r = dict(ref.r)
+    try:
+        want = "ok " + r2.do("concat r3 r0,r1")
+    except Reject:
+        want = None
+    try:
+        got = "ok " + canon_real(a0 + a1)
+    except Exception as e:  # noqa: BLE001
+        got = "ERR:" + type(e).__name__
+    if (want is None) != got.startswith("ERR") or (want is not None and got != want):
+        bad("add", f"r0 + r1 gives {got[:140]}, reference {str(want)[:140]}")
+    # equal_annotations with both values of equal_nan, equal_annotation_categories
+    same_cat = c0.names == c1.names
+    same_ann = same_cat and len(c0.atoms) == len(c1.atoms) and all(x.ann == y.ann for x, y in zip(c0.atoms, c1.atoms))
+    has_nan = any(kind_of(k) == "f" and x.ann[k] == NAN_TOK for x in c0.atoms for k in c0.names)
+    for a, b, nm in ((a0, a1, "r0,r1"), (a0, a0.copy(), "r0,copy")):
+        cat = same_cat if nm == "r0,r1" else True
+        ann = same_ann if nm == "r0,r1" else True
+        if a.equal_annotation_categories(b) != cat:
+            bad("equal_annotation_categories", f"{nm}: {a.equal_annotation_categories(b)} != reference {cat}")
+        if bool(a.equal_annotations(b)) != ann or bool(a.equal_annotations(b, True)) != ann:
+            bad("equal_annotations", f"{nm}: equal_annotations -> {a.equal_annotations(b)}, reference {ann}")
+        want = ann and not has_nan
+        if bool(a.equal_annotations(b, equal_nan=False)) != want:
+            bad("equal_annotations-equal_nan", f"{nm}: equal_annotations(equal_nan=False) -> "
+                f"{a.equal_annotations(b, equal_nan=False)}, reference {want} (NaN present: {has_nan})")
+    if a0.equal_annotations("not an array") is not False:
+        bad("equal_annotations", "a non-container compares equal")
+    # atoms: == / != / copy / shape / the `kwargs=` constructor form / coord()
+    if isinstance(a0, AtomArray) and len(c0.atoms):
+        i = rng.randrange(len(c0.atoms))
+        x, y = a0[i], a0.get_atom(i)
+        z = Atom(x.coord, kwargs=dict(x._annot))
+        cp = x.copy()
+        nan_free = not any(isinstance(v, (float, np.floating)) and v != v for v in x._annot.values())
+        # (Atom.__eq__ compares annotation values with `!=`: an atom with a NaN annotation is unequal to its own
+        #  copy, unlike arrays (equal_nan=True).  Atoms are outside the property statement: observation, see notes.)
+        if nan_free and (not (x == y and x == z and x == cp) or (x != y)) or x.shape != ():
+            bad("atom-eq", f"atom {i} of r0: ==/!=/copy/kwargs form/shape disagree")
+        if cp.coord is x.coord or np.shares_memory(cp.coord, x.coord) or cp._annot is x._annot:
+            bad("atom-copy", "Atom.copy() shares state with the original")
+        cp.coord[0] += 1
+        cp.res_id = 12345
+        if (nan_free and x != y) or x == cp or not (x != cp):
+            bad("atom-eq", "a modified copy still compares equal / the original changed")
+        if x == "atom" or struc.coord(x) is not x.coord:
+            bad("atom-eq", "Atom == str / coord(atom)")
+        if nan_free and len(c0.atoms) > 1 and c0.atoms[i].ann != c0.atoms[i - 1].ann and x == a0[i - 1]:
+            bad("atom-eq", "different atoms compare equal")
+    # coord() of plain data is float32
+    for data in ([[1, 2, 3]], np.array([[1.5, 2, 3]]), np.array([[1, 2, 3]], dtype=np.float32)):
+        r = struc.coord(data)
+        if r.dtype != np.float32 or r.tolist() != np.asarray(data, dtype=float).tolist():
+            bad("coord", f"coord({type(data).__name__}) -> {r.dtype}")
+    # fresh containers: mandatory categories, NaN coordinates, no box / bonds
+    for fresh, shp in ((AtomArray(3), (3, 3)), (AtomArrayStack(2, 3), (2, 3, 3)), (AtomArray(0), (0, 3)), (AtomArrayStack(0, 0), (0, 0, 3))):
+        if (sorted(fresh.get_annotation_categories()) != sorted(MAND) or fresh.coord.shape != shp or fresh.coord.dtype != np.float32
+                or not np.isnan(fresh.coord).all() or fresh.box is not None or fresh.bonds is not None
+                or any(len(fresh.get_annotation(k)) != shp[-2] for k in MAND)):
+            bad("constructor", f"fresh {type(fresh).__name__}{shp}")
+    return out
 
 # ------------------------------------------------------------------ generator (tracks state with the reference model)
 class Gen:
@@ -1494,6 +1658,8 @@ def cases(rng, tier):
         yield _history(rng, rng.randint(1, 25))
     for _ in range(n_mal):
         yield _history(rng, rng.randint(2, 12), malformed=True)
+    for _ in range(60 if tier == "quick" else 600):
+        yield _api_case(rng)
     if tier == "thorough":
         yield from _exhaustive(rng)
     else:
@@ -1524,13 +1690,15 @@ def corpus():
 
 def nontrivial(case, impl_out):
     ops = case.get("ops") or []
+    if "api" in case:
+        ops = case["api"]["new"] + ["", ""]
     if len(ops) < 3:
         return False
     return any(re.match(r"new \S+ [AS] ([2-9])", o) for o in ops)
 
 
 def signature(case):
-    return "|".join(case["ops"])
+    return "|".join(case.get("ops") or case.get("api", {}).get("new", []))
 
 
 def distribution(cases, impl_outs):
